@@ -49,9 +49,10 @@ theorem len_stmt : ∀ (s : SStmt) (sfx : String) (off : Nat), (compileStmt sfx 
     simp only [compileStmt, sizeStmt, List.length_append, List.length_cons, List.length_nil]
     rw [flatMap_const_len _ 2 (fun _ => rfl)] <;> (try omega)
   | .read vars p, _, _ => by
-    simp only [compileStmt, sizeStmt, List.length_append, List.length_cons, List.length_nil,
-      List.length_map, List.length_zipIdx]
-    rw [flatMap_const_len _ 3 (fun _ => rfl), flatMap_const_len _ 3 (fun _ => rfl)] <;> (try omega)
+    simp only [compileStmt, sizeStmt]
+    split
+    · rfl
+    · exact flatMap_const_len _ 11 (fun _ => rfl) vars
   | .ifBlock c thn elifs hasElse els p, sfx, off => by
     simp only [compileStmt, sizeStmt, List.length_append, List.length_singleton, len_stmt thn, len_elifs elifs]
     cases hasElse <;> simp [len_stmt els] <;> try omega
